@@ -34,8 +34,8 @@ theorem lab_refines_map (U : Universe) (hinj : KeyInj U) (hpre : ∀ T, U.namePr
     have hop : abs U (opC U d op).1 = (opA U (abs U d) op).1 ∧ outSame (opC U d op).2 (opA U (abs U d) op).2 ∧
         Wf U (opC U d op).1 := by
       cases op with
-      | run bust g req =>
-        have r := run_refines U hinj bust g req d wf
+      | run bust g req fl =>
+        have r := run_refines U hinj bust g fl req d wf
         refine ⟨r.map, ?_, r.wf⟩
         simp only [opC, opA, outSame, returned, returnedA, r.vals, r.execd, r.loaded]
       | uncache ts =>
@@ -62,13 +62,13 @@ theorem uncache_removes_exactly (U : Universe) (hinj : KeyInj U) (ts : List Tid)
   simpa [abs, specUncache] using this
 
 /-- the three things one planned task can do -/
-theorem stepA_cases (U : Universe) (bust : Bool) (g : Nat) (a : AAcc) (t : Tid) :
-    (∃ s, stepA U bust g a t = { a with vals := (t, some s.val) :: a.vals, loaded := (t, s) :: a.loaded }) ∨
-    (∃ v, stepA U bust g a t =
+theorem stepA_cases (U : Universe) (bust : Bool) (g : Nat) (fl : List Tid) (a : AAcc) (t : Tid) :
+    (∃ s, stepA U bust g fl a t = { a with vals := (t, some s.val) :: a.vals, loaded := (t, s) :: a.loaded }) ∨
+    (∃ v, stepA U bust g fl a t =
       { a with map := if persists U t then aUpdate a.map t { val := v, start := metaStart g t, dur := metaDur g t }
                       else a.map,
                vals := (t, some v) :: a.vals, execd := t :: a.execd }) ∨
-    (stepA U bust g a t = { a with vals := (t, none) :: a.vals, execd := t :: a.execd }) := by
+    (stepA U bust g fl a t = { a with vals := (t, none) :: a.vals, execd := t :: a.execd }) := by
   unfold stepA
   split
   · next s _ => exact Or.inl ⟨s, rfl⟩
@@ -77,18 +77,18 @@ theorem stepA_cases (U : Universe) (bust : Bool) (g : Nat) (a : AAcc) (t : Tid) 
     · exact Or.inr (Or.inr rfl)
 
 /-- fold invariant of a specification run -/
-theorem spec_fold_inv (U : Universe) (bust : Bool) (g : Nat) (m0 : AMap) (l : List Tid) (a : AAcc)
+theorem spec_fold_inv (U : Universe) (bust : Bool) (g : Nat) (fl : List Tid) (m0 : AMap) (l : List Tid) (a : AAcc)
     (h1 : ∀ x, x ∉ a.execd → a.map x = m0 x)
     (h2 : ∀ x, a.map x ≠ m0 x → x ∈ a.execd ∧ persists U x = true ∧
       ∃ v, a.map x = some { val := v, start := metaStart g x, dur := metaDur g x }) :
-    (∀ x, x ∉ (l.foldl (stepA U bust g) a).execd → (l.foldl (stepA U bust g) a).map x = m0 x) ∧
-    (∀ x, (l.foldl (stepA U bust g) a).map x ≠ m0 x → x ∈ (l.foldl (stepA U bust g) a).execd ∧ persists U x = true ∧
-      ∃ v, (l.foldl (stepA U bust g) a).map x = some { val := v, start := metaStart g x, dur := metaDur g x }) := by
+    (∀ x, x ∉ (l.foldl (stepA U bust g fl) a).execd → (l.foldl (stepA U bust g fl) a).map x = m0 x) ∧
+    (∀ x, (l.foldl (stepA U bust g fl) a).map x ≠ m0 x → x ∈ (l.foldl (stepA U bust g fl) a).execd ∧ persists U x = true ∧
+      ∃ v, (l.foldl (stepA U bust g fl) a).map x = some { val := v, start := metaStart g x, dur := metaDur g x }) := by
   induction l generalizing a with
   | nil => exact ⟨h1, h2⟩
   | cons t ts ih =>
     simp only [List.foldl]
-    rcases stepA_cases U bust g a t with ⟨s, hs⟩ | ⟨v, hv⟩ | hn
+    rcases stepA_cases U bust g fl a t with ⟨s, hs⟩ | ⟨v, hv⟩ | hn
     · rw [hs]; exact ih _ h1 h2
     · rw [hv]
       apply ih
@@ -120,25 +120,25 @@ theorem spec_fold_inv (U : Universe) (bust : Bool) (g : Nat) (m0 : AMap) (l : Li
         exact ⟨List.mem_cons_of_mem _ this.1, this.2⟩
 
 /-- a run leaves every entry of a task it did not execute exactly as it was -/
-theorem run_changes_only_executed (U : Universe) (bust : Bool) (g : Nat) (req : List Tid) (m : AMap) (x : Tid)
-    (h : x ∉ (specRun U bust g req m).execd) : (specRun U bust g req m).map x = m x :=
-  (spec_fold_inv U bust g m _ { map := m } (fun _ _ => rfl) (fun _ hx => absurd rfl hx)).1 x h
+theorem run_changes_only_executed (U : Universe) (bust : Bool) (g : Nat) (fl : List Tid) (req : List Tid) (m : AMap) (x : Tid)
+    (h : x ∉ (specRun U bust g fl req m).execd) : (specRun U bust g fl req m).map x = m x :=
+  (spec_fold_inv U bust g fl m _ { map := m } (fun _ _ => rfl) (fun _ hx => absurd rfl hx)).1 x h
 
 /-- every entry a run adds or replaces belongs to a task this run executed, whose type caches and
     whose Lab has a storage, and holds this run's fresh result and meta -/
-theorem run_changed_entries_are_fresh (U : Universe) (bust : Bool) (g : Nat) (req : List Tid) (m : AMap) (x : Tid)
-    (h : (specRun U bust g req m).map x ≠ m x) :
-    x ∈ (specRun U bust g req m).execd ∧ persists U x = true ∧
-    ∃ v, (specRun U bust g req m).map x = some { val := v, start := metaStart g x, dur := metaDur g x } :=
-  (spec_fold_inv U bust g m _ { map := m } (fun _ _ => rfl) (fun _ hx => absurd rfl hx)).2 x h
+theorem run_changed_entries_are_fresh (U : Universe) (bust : Bool) (g : Nat) (fl : List Tid) (req : List Tid) (m : AMap) (x : Tid)
+    (h : (specRun U bust g fl req m).map x ≠ m x) :
+    x ∈ (specRun U bust g fl req m).execd ∧ persists U x = true ∧
+    ∃ v, (specRun U bust g fl req m).map x = some { val := v, start := metaStart g x, dur := metaDur g x } :=
+  (spec_fold_inv U bust g fl m _ { map := m } (fun _ _ => rfl) (fun _ hx => absurd rfl hx)).2 x h
 
 /-- without `bust_cache` a task that is cached is never executed, and its entry stays -/
-theorem run_keeps_cached (U : Universe) (g : Nat) (req : List Tid) (m : AMap) (x : Tid) (hx : (m x).isSome = true) :
-    x ∉ (specRun U false g req m).execd ∧ (specRun U false g req m).map x = m x := by
+theorem run_keeps_cached (U : Universe) (g : Nat) (fl : List Tid) (req : List Tid) (m : AMap) (x : Tid) (hx : (m x).isSome = true) :
+    x ∉ (specRun U false g fl req m).execd ∧ (specRun U false g fl req m).map x = m x := by
   simp only [specRun]
   generalize neededFrom U _ req = l
   have : ∀ (a : AAcc), x ∉ a.execd → a.map x = m x →
-      x ∉ (l.foldl (stepA U false g) a).execd ∧ (l.foldl (stepA U false g) a).map x = m x := by
+      x ∉ (l.foldl (stepA U false g fl) a).execd ∧ (l.foldl (stepA U false g fl) a).map x = m x := by
     induction l with
     | nil => intro a h1 h2; exact ⟨h1, h2⟩
     | cons t ts ih =>
@@ -169,19 +169,19 @@ theorem run_keeps_cached (U : Universe) (g : Nat) (req : List Tid) (m : AMap) (x
 
 /-- with `bust_cache` nothing is loaded: the whole planned closure of the request is executed,
     dependencies first -/
-theorem bust_executes_closure (U : Universe) (g : Nat) (req : List Tid) (m : AMap) :
-    (specRun U true g req m).execd = (neededFrom U (fun _ => false) req).reverse ∧
-    (specRun U true g req m).loaded = [] := by
+theorem bust_executes_closure (U : Universe) (g : Nat) (fl : List Tid) (req : List Tid) (m : AMap) :
+    (specRun U true g fl req m).execd = (neededFrom U (fun _ => false) req).reverse ∧
+    (specRun U true g fl req m).loaded = [] := by
   simp only [specRun, Bool.not_true, Bool.false_and]
   generalize neededFrom U (fun _ => false) req = l
-  have : ∀ (a : AAcc), (l.foldl (stepA U true g) a).execd = l.reverse ++ a.execd ∧
-      (l.foldl (stepA U true g) a).loaded = a.loaded := by
+  have : ∀ (a : AAcc), (l.foldl (stepA U true g fl) a).execd = l.reverse ++ a.execd ∧
+      (l.foldl (stepA U true g fl) a).loaded = a.loaded := by
     induction l with
     | nil => intro a; simp
     | cons t ts ih =>
       intro a
       simp only [List.foldl]
-      obtain ⟨i1, i2⟩ := ih (stepA U true g a t)
+      obtain ⟨i1, i2⟩ := ih (stepA U true g fl a t)
       rw [i1, i2]
       unfold stepA
       simp only [if_true]
@@ -217,8 +217,8 @@ theorem null_inert (U : Universe) (h : U.nullStorage = true ∨ ∀ T, U.cacheOf
     induction ts with
     | nil => intro d; rfl
     | cons t ts ih3 => intro d; simp only [labUncache, hdel, ite_self]; exact ih3 d
-  have hrun : ∀ bust g (l : List Tid) (a : Acc), (l.foldl (stepC U bust g) a).disk = a.disk := by
-    intro bust g l
+  have hrun : ∀ bust g fl (l : List Tid) (a : Acc), (l.foldl (stepC U bust g fl) a).disk = a.disk := by
+    intro bust g fl l
     induction l with
     | nil => intro a; rfl
     | cons t ts ih2 =>
@@ -237,7 +237,7 @@ theorem null_inert (U : Universe) (h : U.nullStorage = true ∨ ∀ T, U.cacheOf
       intro d
       have hop : (opC U d op).1 = d := by
         cases op with
-        | run bust g req => simp only [opC, labRun]; exact hrun _ _ _ _
+        | run bust g req fl => simp only [opC, labRun]; exact hrun _ _ _ _ _
         | uncache ts => simp only [opC]; exact hunc ts d
         | isCached t => rfl
         | cachedTasks types => rfl
@@ -245,6 +245,40 @@ theorem null_inert (U : Universe) (h : U.nullStorage = true ∨ ∀ T, U.cacheOf
       rw [hop]
       exact ih d
   exact ⟨hdisk ops d, hic d, hload d⟩
+
+/-- **a failed execution changes nothing**: whenever `run()` of a planned task fails in this run
+    (it raises — always, or because this run's context says so — or a dependency result is missing),
+    the step leaves the disk exactly as it was; in particular a valid entry of an earlier successful
+    execution survives a failed `bust_cache` re-execution -/
+theorem failed_execution_changes_nothing (U : Universe) (bust : Bool) (g : Nat) (fl : List Tid) (a : Acc) (t : Tid)
+    (h : runTask U g fl a.vals t = none) : (stepC U bust g fl a t).disk = a.disk := by
+  unfold stepC
+  split
+  · split <;> rfl
+  · rw [h]
+
+/-- … and on the specification: the entry of a task whose execution in this run failed is the
+    entry it had before the run (the run's `vals` records the failure as `none`) -/
+theorem run_failed_keeps_entry (U : Universe) (bust : Bool) (g : Nat) (fl : List Tid) (req : List Tid) (m : AMap) (x : Tid)
+    (h : (specRun U bust g fl req m).map x ≠ m x) :
+    ∃ v, (specRun U bust g fl req m).map x = some { val := v, start := metaStart g x, dur := metaDur g x } :=
+  (run_changed_entries_are_fresh U bust g fl req m x h).2.2
+
+/-- what `cached_tasks` attaches to a listed task as `result_meta` is the start/duration stored in
+    that task's own entry, i.e. the meta a load of the task returns -/
+theorem cached_task_meta_is_stored_meta (U : Universe) (d : Disk) (t : Tid) (s : Stored)
+    (h : cLoad U d t = some s) : cachedTaskMeta U d t = some (s.start, s.dur) := by
+  unfold cLoad at h
+  unfold cachedTaskMeta
+  cases hk : kindOf U t <;> rw [hk] at h <;> simp at h
+  all_goals
+    obtain ⟨_, h⟩ := h
+    cases he : lookup (keyOf U t) d with
+    | none => simp [he] at h
+    | some e =>
+      simp only [he] at h
+      split at h <;> simp at h
+      simp [← h]
 
 /-! ## non-vacuity -/
 def exU : Universe :=
@@ -263,13 +297,22 @@ example : KeyInj exU ∧ (∀ T, exU.namePrefix T T = true) ∧ Wf exU [] := by
 /-- a history with a failing task, a `cache=None` type, bust and uncache: outputs of the concrete
     model, step by step -/
 example :
-    (histC exU [] [.run false 1 [3], .isCached 0, .isCached 2, .isCached 3, .cachedTasks [0, 1, 2],
-                  .run false 2 [0, 1], .run true 3 [0], .uncache [0, 3], .cachedTasks [0]]).2
+    (histC exU [] [.run false 1 [3] [], .isCached 0, .isCached 2, .isCached 3, .cachedTasks [0, 1, 2],
+                  .run false 2 [0, 1] [], .run true 3 [0] [], .uncache [0, 3], .cachedTasks [0]]).2
     = [.ran [] [3, 2, 1, 0] [], .bool true, .bool false, .bool false, .tasks [0],
        .ran [(0, 1)] [1] [(0, { val := 1, start := 1, dur := 100 })], .ran [(0, 3)] [0] [],
        .unit, .tasks []] := by decide
 
-example : (histC { exU with nullStorage := true } [] [.run false 1 [0], .isCached 0]).2
+/-- a cached task whose `bust_cache` re-execution fails (this run's context makes task 0 raise) keeps
+    its entry: still reported cached, and the next plain run loads the OLD value with the OLD meta -/
+example :
+    (histC exU [] [.run false 1 [0] [], .run true 2 [0] [0], .isCached 0, .run false 3 [0] []]).2
+    = [.ran [(0, 1)] [0] [], .ran [] [0] [], .bool true,
+       .ran [(0, 1)] [] [(0, { val := 1, start := 1, dur := 100 })]] := by decide
+
+example : runTask exU 2 [0] [] 0 = none ∧ runTask exU 2 [] [] 0 = some 2 := by decide
+
+example : (histC { exU with nullStorage := true } [] [.run false 1 [0] [], .isCached 0]).2
     = [.ran [(0, 1)] [0] [], .bool false] := by decide
 
 end Lt.Props.C08
